@@ -30,6 +30,7 @@ type c06Case struct {
 	CPkts   []c06Pkt `json:"client_packets"`
 	HWrites []int    `json:"host_writes"`
 	Sched   []bool   `json:"schedule"` // true = client sends next packet, false = host writes next chunk
+	EndWithLast bool `json:"body_ends_with_last_unit,omitempty"` // legacy: the terminating zero-length chunk of RDG_IN_DATA travels in the same write as the last unit
 	Tails   []int    `json:"unit_tails,omitempty"` // per transport unit: 1 = a keep-alive packet, 2 = a packet of unknown type travels in the same unit behind the data packet(s)
 	Group   []int    `json:"group"`    // client packets i..i+Group[i]-1 travel in one transport unit (one websocket message / one write of HTTP chunks)
 }
@@ -93,6 +94,7 @@ func genC06(t *rapid.T, maxTotal int) c06Case {
 	for i := 0; i < len(c.CPkts)+len(c.HWrites); i++ {
 		c.Sched = append(c.Sched, rapid.Bool().Draw(t, "who"))
 	}
+	c.EndWithLast = c.Kind == "legacy" && rapid.IntRange(0, 3).Draw(t, "endWithLast") == 0
 	if rapid.IntRange(0, 2).Draw(t, "tails") == 0 {
 		for range c.CPkts {
 			c.Tails = append(c.Tails, rapid.SampledFrom([]int{0, 0, 1, 1, 2}).Draw(t, "tail"))
@@ -278,6 +280,14 @@ func runC06On(c c06Case, o gwOpts, tgt gwc.Target) *Violation {
 		}
 	}
 	sendUnit := func(i int) error {
+		if lg, ok := conn.(*gwc.Legacy); ok && c.EndWithLast && i == len(cunits)-1 {
+			if g, grouped := legacyGroups[i]; grouped {
+				lg.SendChunks(g[:len(g)-1])
+				lg.SyncPeer()
+				return lg.SendWithEnd(g[len(g)-1])
+			}
+			return lg.SendWithEnd(cunits[i])
+		}
 		if g, ok := legacyGroups[i]; ok {
 			lg := conn.(*gwc.Legacy)
 			err := lg.SendChunks(g)
@@ -286,10 +296,18 @@ func runC06On(c c06Case, o gwOpts, tgt gwc.Target) *Violation {
 		}
 		return conn.Send(cunits[i])
 	}
+	// the client ends RDG_IN_DATA with its last unit: that ends the tunnel, so the unit waits until the client has
+	// everything the host wrote
+	_, isLegacyConn := conn.(*gwc.Legacy)
+	deferLast := isLegacyConn && c.EndWithLast && len(cunits) > 0
+	nSched := len(cunits)
+	if deferLast {
+		nSched--
+	}
 	ci, hi := 0, 0
 	var sendErr error
 	for _, who := range c.Sched {
-		if who && ci < len(cunits) {
+		if who && ci < nSched {
 			if sendErr == nil {
 				sendErr = sendUnit(ci)
 			}
@@ -299,7 +317,7 @@ func runC06On(c c06Case, o gwOpts, tgt gwc.Target) *Violation {
 			hi++
 		}
 	}
-	for ; ci < len(cunits); ci++ {
+	for ; ci < nSched; ci++ {
 		if sendErr == nil {
 			sendErr = sendUnit(ci)
 		}
@@ -324,7 +342,13 @@ func runC06On(c c06Case, o gwOpts, tgt gwc.Target) *Violation {
 	}
 	// client -> host: a CLOSE_CHANNEL after the data is answered (or ends the tunnel) only after every earlier
 	// data packet has been processed
-	conn.Send(tsgu.CloseChannel())
+	if deferLast {
+		if sendErr == nil {
+			sendErr = sendUnit(len(cunits) - 1)
+		}
+	} else {
+		conn.Send(tsgu.CloseChannel())
+	}
 	if c.Kind == "ws" {
 		conn.WaitEOF(10 * time.Second)
 	} else {
@@ -385,6 +409,9 @@ func classifyC06(c c06Case) (bool, []string) {
 	}
 	if len(c.Group) > 0 {
 		cl = append(cl, "coalesced-units")
+	}
+	if c.EndWithLast && c.Kind == "legacy" && len(c.CPkts) > 0 {
+		cl = append(cl, "body-ends-with-last-unit")
 	}
 	return ct > 4086 || ht > 4086 || mism || boundary || (ct > 0 && ht > 0), cl
 }
